@@ -37,9 +37,11 @@ class Family:
     run(eng, ctx) -> dict with keys: outcome (str, for witnesses), violations (list of dicts with 'what' and
     'case' = concrete replayable case), optional 'sample' (a printable instance), 'validate' (case for
     engine-vs-real differential validation with 'expect')."""
-    def __init__(self, name, mk, run, witnesses=(), on_panic=None, precondition=None, hash_order="insertion", target_prefixes=None):
+    def __init__(self, name, mk, run, witnesses=(), on_panic=None, precondition=None, hash_order="insertion", target_prefixes=None, limit=None, setup=None):
         self.name = name; self.mk = mk; self.run = run; self.witnesses = tuple(witnesses); self.on_panic = on_panic
         self.precondition = precondition; self.hash_order = hash_order; self.target_prefixes = target_prefixes
+        self.limit = limit          # optional cap on explored paths per work item (reported as truncated in the evidence)
+        self.setup = setup          # optional callable(eng) run before exploring (engine mode switches)
 
 _G = {}
 def _worker(job):
@@ -47,16 +49,17 @@ def _worker(job):
     eng = _G["eng"]; fam = _G["fams"][fi]
     eng.hash_order = fam.hash_order
     eng.on_panic = fam.on_panic
+    if fam.setup: fam.setup(eng)
     q0, d0, s0, st0 = eng.nqueries, eng.ndecisions, eng.solver_s, eng.nsteps
     try:
-        res, dt = eng.explore(fam.mk, fam.run, prefix=prefix)
+        res, dt = eng.explore(fam.mk, fam.run, prefix=prefix, limit=fam.limit)
     except Unmodelled as e:
         return {"fi": fi, "error": "unmodelled callee: %s @ %s" % (e, " > ".join("%s:%s" % x for x in getattr(e, "mir_stack", [])[-4:]))}
     except Inconclusive as e:
         return {"fi": fi, "error": "inconclusive: %s" % e}
     except Exception as e:
         return {"fi": fi, "error": "engine error: %s\n%s\nMIR stack: %s" % (e, traceback.format_exc()[-1500:], getattr(e, "mir_stack", [])[-5:])}
-    out = {"fi": fi, "paths": [], "queries": eng.nqueries - q0, "decisions": eng.ndecisions - d0, "solver_s": eng.solver_s - s0, "steps": eng.nsteps - st0}
+    out = {"fi": fi, "paths": [], "truncated": bool(fam.limit and len(res) >= fam.limit), "queries": eng.nqueries - q0, "decisions": eng.ndecisions - d0, "solver_s": eng.solver_s - s0, "steps": eng.nsteps - st0}
     for kind, dec, r in res:
         if kind == "panic" and not isinstance(r, dict):
             r = {"outcome": "panic", "violations": [{"what": "panic: " + r, "case": None}]}
@@ -72,6 +75,7 @@ def explore_families(eng, fams, log=print, deadline=None):
     t0 = time.time()
     for fi, fam in enumerate(fams):
         eng.hash_order = fam.hash_order; eng.on_panic = fam.on_panic
+        if fam.setup: fam.setup(eng)
         tp = fam.target_prefixes if fam.target_prefixes is not None else (NCPU * 4 if len(fams) < NCPU * 2 else 1)
         if tp <= 1: jobs.append((fi, []))
         else:
@@ -87,6 +91,7 @@ def explore_families(eng, fams, log=print, deadline=None):
             if "error" in r:
                 pool.terminate(); return None, None, None, "family %s: %s" % (fams[r["fi"]].name, r["error"])
             s = summ[r["fi"]]
+            if r.get("truncated"): s["truncated"] = True
             s["queries"] += r["queries"]; s["decisions"] += r["decisions"]; s["solver_s"] += r["solver_s"]; s["steps"] += r["steps"]
             for nd, pr in r["paths"]:
                 s["paths"] += 1
@@ -291,7 +296,8 @@ def _main(check):
         "witnesses": {k: allout[k] for k in sorted(allout)},
         "source_hash": info["source_hash"], "mir_dump_s": round(info["dump_s"], 1), "nightly": info["nightly"],
         "candidates": len(viol), "confirmed_on_real_build": len(confirmed), "not_reproduced": len(unconfirmed),
-        "known_findings_hit": sorted(known_hits), "exhaustive": True,
+        "known_findings_hit": sorted(known_hits), "exhaustive": not any(s.get("truncated") for s in summ),
+        "truncated_families": [s["name"] for s in summ if s.get("truncated")][:50],
         "explanation": "symbolic execution of rustc MIR (regenerated from /repo this run) with z3; every feasible path of every listed family explored; oracles discharged per path",
     }
     if unconfirmed or nocase:
